@@ -831,7 +831,22 @@ func runC16(c *Case, out func(string)) {
 					out("B blocked")
 					break
 				}
-				res := reflect.ValueOf(n.e).MethodByName("BeginTransaction").Call([]reflect.Value{reflect.ValueOf(wantRO)})
+				// never wait for ever: if an earlier step handed out a read-write transaction that the
+				// property forbids, this begin waits for a lock nobody will release
+				bch := make(chan []reflect.Value, 1)
+				go func() {
+					bch <- reflect.ValueOf(n.e).MethodByName("BeginTransaction").Call([]reflect.Value{reflect.ValueOf(wantRO)})
+				}()
+				var res []reflect.Value
+				select {
+				case res = <-bch:
+				case <-time.After(5 * time.Second):
+					out("B hung")
+					fail("C16: BeginTransaction on the facade does not return (the transaction lock is held by a transaction that should not exist on this node)")
+				}
+				if res == nil {
+					break
+				}
 				if !res[1].IsNil() {
 					out("B " + c16Err(res[1].Interface().(error)))
 					break
